@@ -33,6 +33,7 @@ type specEnv struct {
 	newFacts   []*QFact
 	rc         *rootCtx
 	freshAlloc func() *Term
+	freshMemo  map[*Term]*Term
 	ext        []extent
 	st         *State
 	headCalls  *Term
@@ -726,7 +727,17 @@ func (env *specEnv) call(t *ast.CallExpr) SVal {
 		}
 		if env.assume {
 			if env.freshAlloc != nil {
-				return SVal{V: Scalar{T: c.Eq(r, env.freshAlloc())}, T: boolT}
+				// one allocation per region term within one contract application: two clauses that both call
+				// the same pointer fresh must not name two different regions (that would make the case vacuous)
+				if env.freshMemo == nil {
+					env.freshMemo = map[*Term]*Term{}
+				}
+				fr, ok := env.freshMemo[r]
+				if !ok {
+					fr = env.freshAlloc()
+					env.freshMemo[r] = fr
+				}
+				return SVal{V: Scalar{T: c.Eq(r, fr)}, T: boolT}
 			}
 			return SVal{V: Scalar{T: c.Eq(r, env.e.newRegion())}, T: boolT}
 		}
